@@ -84,8 +84,34 @@ ENVIRONMENT: no network. Before shell commands run: `export GOPROXY=off GOSUMDB=
         open(f"{out}/PROMPT.txt", "w").write(t)
     print("wrote", len(AREAS), "prompts")
 
+FEATURE_AREAS = [
+ "the logger API in slog/entry.go (a new With*/Set* pair, a new getter, a new New(...) option, a new verb family for an existing level)",
+ "the encoder in slog/pc.go and slog/attr.go (support for a new value kind or slice kind, a new Attr constructor helper, a new flag that changes nothing unless set)",
+ "levels, writers and bridges in slog/level.go, slog/writers.go, slog/funcs.go, slog/adapters.go (a new RegOpt, a new writer wrapper type, a new handler option, a new package-level convenience function)",
+ "helpers in slog/stack.go, slog/cmn.go, slog/internal/times, slog/internal/strings (a new known-path helper, a new flag constant with getter, a new duration helper, a new string helper used by nothing yet or by one new API)",
+]
+
+def features(base, first):
+    for i, area in enumerate(FEATURE_AREAS):
+        rid = f"F{first+i}"
+        wt, out = f"{base}/{rid}", f"{base}-out/{rid}"
+        os.makedirs(out, exist_ok=True)
+        t = f"""You are a careful maintainer of the Go logging library hedzr/logg (package github.com/hedzr/logg/slog). You work ONLY inside your own scratch git worktree at {wt} (a checkout of the current HEAD). Do NOT read or write anything under /verif or /repo, and do not touch other worktrees. Write results to {out}/ .
+
+YOUR TASK: produce FOUR independent, CORRECT FEATURE ADDITIONS to the library (four separate patches, each applied alone to a clean checkout), in this area: {area}.
+Each patch adds a small, useful, well-behaved feature in the style of the existing code (20-80 added lines), wired into the existing code paths where that is natural, WITHOUT changing any existing behaviour: every existing input, configuration and call sequence must produce exactly the same bytes, destinations, admission decisions, panics/exits and caller attribution as before (do not add or remove a stack frame between an existing public entry point and runtime.Callers/getpc; new public entry points must attribute records to THEIR caller correctly, like their siblings do). New behaviour must itself be correct and consistent with the library's documented semantics (levels gate the same way at the new entry points, output stays valid in all three formats, no shared mutable state without synchronisation, no data races).
+Each patch must ALSO add its own test in a NEW file `slog/zz_feature{{k}}_test.go` (or the matching internal package directory) that exercises the feature and passes. Existing *_test.go files, go.mod and go.sum must not be edited.
+HARD REQUIREMENTS: it compiles (`go build ./...`, also `cd slog && go build -tags verbose ./... && go build -tags hint ./...`), and the whole suite passes: `/tmp/run_suite.sh {wt}` must print `passed N failed 0` with N >= 155.
+For each patch k in 1..4 write to {out}/ : patch{{k}}.diff (unified diff from `git -C {wt} add -N . && git -C {wt} diff` so that new files are included; it must apply with `git apply` at the repo root of a clean checkout) and notes{{k}}.md (3-8 lines: the feature, where it is wired in, why existing behaviour is unchanged). After each patch: run the suite, save the diff, then `git -C {wt} reset -q && git -C {wt} checkout -- . && git -C {wt} clean -fdq` before the next one. Leave the worktree clean at the end.
+ENVIRONMENT: no network. Before shell commands run: `export GOPROXY=off GOSUMDB=off GOTOOLCHAIN=local`. Go 1.23; the repo uses a go.work file (keep GOWORK unset). Main package directory: {wt}/slog. Reply with a 8-line summary when done.
+"""
+        open(f"{out}/PROMPT.txt", "w").write(t)
+    print("wrote", len(FEATURE_AREAS), "prompts")
+
 if __name__ == "__main__":
     if sys.argv[1] == "mutants":
         mutants(sys.argv[2], sys.argv[3])
+    elif sys.argv[1] == "features":
+        features(sys.argv[2], int(sys.argv[3]))
     else:
         benign(sys.argv[2], int(sys.argv[3]))
